@@ -13,7 +13,7 @@ from trcommon import run_scenario, decode, ParseError, RUNNER, FAKECLI, FIXTURE_
 T = ["v", "", "-x", "--rm", "a b", "k=v", "a=b=c", "é😀", "$(x)", "'q'"]
 TNE = [t for t in T if t != ""]
 PATHS = ["/a", "/a b", "/x=y", "/é"]
-PORTS = [80, 8080, 65535]
+PORTS = [80, 8080, 8081, 65535]  # two neighbours: no option may stand for a range
 
 
 # variables that are set in the environment of the test process itself (a developer machine behind a
@@ -29,6 +29,8 @@ def env_maps():
     out.append([["HTTPS_PROXY", "configured"], ["HTTP_PROXY", ""]])
     for v in T:
         out.append([["K", v]])
+    # a key configured twice (env, then envs): the later value is the configuration
+    out.append([["K", "first"], ["K", "second"], ["K2", "x"]])
     # values of 40 kB (beyond any "small argument" threshold), one of them with line breaks inside and at the end
     out.append([["K", "x" * 40000]])
     out.append([["K", "{\n" + "  \"k\": 1,\n" * 4000 + "}\r\n"], ["AFTER", "a"]])
@@ -46,7 +48,7 @@ def build_field_domains():
 
 def container_field_domains():
     cmds = [None] + [[a] for a in T] + [[a, b] for a, b in itertools.product(T, repeat=2)]
-    ports = [list(c) for n in range(4) for c in itertools.combinations(PORTS, n)]
+    ports = [list(c) for n in range(len(PORTS) + 1) for c in itertools.combinations(PORTS, n)]
     mounts = [[]] + [[[s, t]] for s, t in itertools.product(PATHS, repeat=2)] + [[[PATHS[0], t], [PATHS[1], u]] for t, u in itertools.product(PATHS, repeat=2)]
     # sources that exist: a directory, a symlink to it, the same directory through a redundant path
     # (ROOT is replaced by the scenario's scratch root): each configured mount must arrive as written
@@ -174,7 +176,7 @@ def judge(r, b, c):
     if get("buildpack") != b["buildpacks"]:
         v.append(("buildpacks", f"pack --buildpack {get('buildpack')}, configured {b['buildpacks']}"))
     envs = [tuple(x.split("=", 1)) if "=" in x else (x, None) for x in get("env")]
-    if sorted(envs) != sorted((k, val) for k, val in b["env"]):
+    if sorted(envs) != sorted(dict((k, val) for k, val in b["env"]).items()):
         v.append(("build-env", f"pack --env decodes to {sorted(envs)}, configured {b['env']}"))
     fixture = r["app_real"]
     path = get("path")
@@ -205,7 +207,7 @@ def judge(r, b, c):
     if dr["command"] != (c["command"] or []):
         v.append(("command", f"docker run command {dr['command']}, configured {c['command']}"))
     envs = [tuple(x.split("=", 1)) if "=" in x else (x, None) for x in rget("env")]
-    if sorted(envs) != sorted((k, val) for k, val in c["env"]):
+    if sorted(envs) != sorted(dict((k, val) for k, val in c["env"]).items()):
         v.append(("container-env", f"docker run --env decodes to {sorted(envs)}, configured {c['env']}"))
     ports = []
     for p in rget("publish"):
@@ -332,7 +334,7 @@ def run(ctx):
     res.cov("evaluations", len(cfgs) + len(pairs) + pk)
     res.cov("distinct_nontrivial", len(cfgs) - 2)
     res.cov("distinct_outcomes", len(shapes))
-    res.cov("rule", "configurations = each field varied over its full domain against defaults (builder over 9 strings; env maps of <=2 keys x 10 value strings (plus two 40 kB values, one multi-line) incl. '', leading dashes, spaces, '=', Unicode, shell metacharacters, and keys that are also set (differently) in the test process's own environment (proxy variables, DOCKER_HOST, K); buildpack lists of length <=3 plus references spelled like paths that exist below the crate root; relative/absolute app dir, also one below the run's temp dir; preprocessor; entrypoint None+10 strings; commands of <=2 elements; all port subsets of {80,8080,65535}; <=2 bind mounts over 4 synthetic paths plus existing sources: a directory, a symlink to it and a redundant spelling of it, up to 3 at once); build+rebuild pairs incl. every pair of preprocessor settings {none, A, B} with the app content pack saw judged per build and, in thorough, all pairs of fields over thinned domains; each run through the real TestRunner with stand-in CLIs; plus 5 sets of on-the-fly packaged references (current crate, workspace buildpacks, a composite, overlapping dependency closures) x both expectations in a really compiled generated workspace; the logged argv is decoded with reference parsers and compared with the configuration; non-trivial = non-default configurations")
+    res.cov("rule", "configurations = each field varied over its full domain against defaults (builder over 9 strings; env maps of <=2 keys x 10 value strings (plus two 40 kB values, one multi-line) incl. '', leading dashes, spaces, '=', Unicode, shell metacharacters, and keys that are also set (differently) in the test process's own environment (proxy variables, DOCKER_HOST, K); buildpack lists of length <=3 plus references spelled like paths that exist below the crate root; relative/absolute app dir, also one below the run's temp dir; preprocessor; entrypoint None+10 strings; commands of <=2 elements; all port subsets of {80,8080,8081,65535}; <=2 bind mounts over 4 synthetic paths plus existing sources: a directory, a symlink to it and a redundant spelling of it, up to 3 at once); build+rebuild pairs incl. every pair of preprocessor settings {none, A, B} with the app content pack saw judged per build and, in thorough, all pairs of fields over thinned domains; each run through the real TestRunner with stand-in CLIs; plus 5 sets of on-the-fly packaged references (current crate, workspace buildpacks, a composite, overlapping dependency closures) x both expectations in a really compiled generated workspace; the logged argv is decoded with reference parsers and compared with the configuration; non-trivial = non-default configurations")
     res.cov("exhaustive", True)
     for i in (3, len(cfgs) // 2, len(cfgs) - 1):
         if 0 <= i < len(cfgs):
